@@ -397,8 +397,11 @@ def stage_seq(run, cfg, sq):
     if rc != 0:
         raise Broken(f"harness seq {comp} failed rc={rc}: {out[-1500:]}")
     diffs, done = run_driver(drv, ops)
+    ign = sq.get("ignore")
+    if ign:
+        diffs = [d for d in diffs if not ign(d)]
     st = json.load(open(stats))
-    run.cov["evaluations"] += st["cases"]
+    run.cov["evaluations"] += st["ops"] if st.get("per_op") else st["cases"]
     run.cov["distinct_nontrivial"] += st["distinct_nontrivial"]
     run.cov["samples"] += st["samples"][:4]
     run.cov["correspondence"][comp] = dict(cases=st["cases"], ops=st["ops"], distinct_cases=st["distinct_cases"],
@@ -415,6 +418,8 @@ def stage_seq(run, cfg, sq):
     reported = set()
     for d in (dec[:40] if dec else diffs[:1]):
         hdr, cops = extract_case(ops, d["case"], d["line"])
+        if sq.get("stateless") and cops:
+            cops = cops[-1:]
         is_dec = decisive(d)
         sig = " ".join(d["op"].split(" ")[:2]) if d["op"].startswith("mon ") else d["op"].split(" ")[0]
         if sig in reported or len(reported) >= 3:
@@ -432,6 +437,8 @@ def stage_seq(run, cfg, sq):
             dd = [x for x in rd if decisive(x)] or rd
             detail = dd[0]["detail"]; last = dd[0]["op"]
         text = f"{comp}: case({hdr}) [{'; '.join(shr)}] -> at `{last}`: {detail}"
+        if len(text) > 900:
+            text = text[:450] + " … " + text[-450:]
         if is_dec:
             run.violation(text, dict(kind="input", component=comp, driver=drv, header=hdr, ops=shr,
                                      original_ops=cops, diff=d, args=list(sq.get("args", ()))), True)
